@@ -20,6 +20,34 @@ CORPUS = {
         "cfg q=1 c=1 | T0: spawn 1; recv 0; crd 0; recv 0; join 1; droprx 0 | T1: cwr 0 5; send 0 1; send 0 2",
         "cfg q=1 c=2 | T0: spawn 1; spawn 2; recv 0; recv 0; crd 0; crd 1; join 1; join 2; droprx 0 | T1: cwr 0 5; send 0 1 | T2: cwr 1 6; send 0 2",
         "cfg q=1 x=1 | T0: spawn 1; recv 0; ld 0 rlx; recv 0; join 1; droprx 0 | T1: st 0 7 rlx; send 0 1; send 0 2",
+        # two senders, the stamp of a message must be its own
+        "cfg q=1 c=1 | T0: spawn 1; spawn 2; recv 0; ifeq 1 v:2 1; crd 0; recv 0; join 1; join 2; droprx 0 | T1: cwr 0 5; send 0 1 | T2: send 0 2",
+        "cfg q=1 c=2 | T0: spawn 1; spawn 2; recv 0; ifeq 1 v:1 1; crd 0; ifeq 2 v:2 1; crd 1; recv 0; join 1; join 2; droprx 0 | T1: cwr 0 5; send 0 1 | T2: cwr 1 6; send 0 2",
+    ],
+    "C04": [
+        # two senders: receiving one sender's message orders nothing with the other sender
+        "cfg q=1 c=1 | T0: spawn 1; spawn 2; recv 0; ifeq 1 v:2 1; crd 0; recv 0; join 1; join 2; droprx 0 | T1: cwr 0 5; send 0 1 | T2: send 0 2",
+        # the cell is read only when the flag says T2 has already sent AND the first message is T1's: the
+        # read races with T2's write (the receive of T1's message orders nothing with T2)
+        "cfg q=1 c=1 x=1 | T0: spawn 1; spawn 2; ld 0 rlx; ifeq 1 v:1 3; recv 0; ifeq 1 v:1 1; crd 0; join 1; join 2; droprx 0 | T1: send 0 1 | T2: cwr 0 5; send 0 2; st 0 1 rlx",
+    ],
+    "C10": [
+        # a clone racing with strong_count and a drop by another thread: nothing is leaked
+        "cfg | T0: anew 0; aclone 0 1; spawn 1; aclone 0 2; adrop 2; adrop 0; join 1 | T1: acount 1; adrop 1",
+        "cfg | T0: anew 0; aclone 0 1; spawn 1; aclone 0 2; join 1; adrop 2 | T1: acount 1; adrop 1; acount 0",
+        "cfg | T0: anew 0; aclone 0 1; aclone 0 2; spawn 1; spawn 2; adrop 0; join 1; join 2 | T1: acount 1; adrop 1 | T2: aclone 2 3; adrop 3; adrop 2",
+    ],
+    "C15": [
+        # a load / RMW directly followed by a possibly spurious Notify::wait, with preemptions before and after
+        "cfg x=1 n=1 m=1 c=1 | T0: spawn 1; lock 0; crd 0; unlock 0; nnotify 0; ld 0 rlx; ifeq 1 v:0 1; nwait 0; lock 0; crd 0; unlock 0; join 1 | T1: lock 0; cwr 0 1; unlock 0; lock 0; cwr 0 2; unlock 0; lock 0; cwr 0 3; unlock 0",
+        "cfg x=1 n=1 | T0: spawn 1; ld 0 rlx; nwait 0; ld 0 rlx; fadd 0 1 rlx; join 1 | T1: st 0 1 rlx; nnotify 0; fadd 0 1 rlx; fadd 0 1 rlx",
+        "cfg x=1 n=1 | T0: spawn 1; nnotify 0; fadd 0 1 rlx; nwait 0; fadd 0 1 rlx; fadd 0 1 rlx; join 1 | T1: fadd 0 1 rlx; fadd 0 1 rlx; fadd 0 1 rlx",
+    ],
+    "C16": [
+        # SeqCst fences: the global fence clock must not survive an iteration
+        "cfg x=2 c=1 | T0: spawn 1; fence sc; ld 0 rlx; ifeq 1 v:1 1; crd 0; join 1; fence sc | T1: cwr 0 1; st 0 1 rlx",
+        "cfg x=2 | T0: spawn 1; st 0 1 rlx; fence sc; ld 1 rlx; join 1 | T1: st 1 1 rlx; fence sc; ld 0 rlx",
+        "cfg x=2 | T0: spawn 1; st 0 1 rlx; st 1 1 rlx; join 1; fence sc | T1: fence sc; ld 1 rlx; ld 0 rlx",
     ],
     "C08": [
         # unpark before park (token) and after park: the unparker's writes are visible after park
